@@ -11,6 +11,7 @@ CONSTANTS
   DialMayFail = TRUE
   WithClose = TRUE
   MayCancel = FALSE
+  DialedAtStart = TRUE
   MayReset = FALSE
   MaySrvClose = TRUE
 INVARIANTS Safety Recovers
